@@ -29,12 +29,13 @@ fn scenario(id: &str) -> Option<&'static dyn Scenario> {
         "C08" => &scen::buckets::C08,
         "C12" => &scen::locals::C12,
         "C18" => &scen::timers::C18,
+        "C16" => &scen::feature::C16,
         "C09" => &scen::descs::C09,
         _ => return None,
     })
 }
 
-pub const ALL: &[&str] = &["C01", "C02", "C03", "C04", "C05", "C06", "C07", "C08", "C09", "C10", "C11", "C12", "C13", "C14", "C15", "C17", "C18"];
+pub const ALL: &[&str] = &["C01", "C02", "C03", "C04", "C05", "C06", "C07", "C08", "C09", "C10", "C11", "C12", "C13", "C14", "C15", "C16", "C17", "C18"];
 
 fn tier_of(s: &str) -> Tier {
     match s {
@@ -112,6 +113,10 @@ fn main() {
             for (_, l) in lines {
                 println!("{}", l);
             }
+            0
+        }
+        "serve16" => {
+            scen::feature::serve();
             0
         }
         "hashprobe" => {
